@@ -34,6 +34,8 @@ func aliasedDoc(r *prng.R) interface{} {
 		"holes": []interface{}{map[string]interface{}{}, map[string]interface{}{"k": "x"}, map[string]interface{}{}, []interface{}{}},
 		"ea":   []interface{}{},
 		"b":    map[string]interface{}{"c": "low", "d": []interface{}{[]interface{}{1.0, 2.0}, []interface{}{3.0}}},
+		// objects below an array that is itself an item of an array (a table of rows)
+		"rows": []interface{}{[]interface{}{map[string]interface{}{"k": "x", "v": 1.0}}, []interface{}{map[string]interface{}{"k": "y", "v": 2.0}, map[string]interface{}{"k": "x", "v": 3.0}}},
 	}
 }
 
@@ -144,7 +146,7 @@ func (g *c07Gen) pattern() jast.Node {
 		g.tags["pattern:missing"] = true
 		return &jast.Name{V: "nothing"}
 	}
-	return &jast.Name{V: r.Pick("a", "arr", "c", "e", "b")}
+	return &jast.Name{V: r.Pick("a", "arr", "c", "e", "b", "rows", "rows")}
 }
 
 func (g *c07Gen) update() jast.Node {
